@@ -22,6 +22,9 @@ import Plotink.Gen.parseLengthWithUnits
 import Plotink.Gen.unitsToUserUnits
 import Plotink.Gen.userUnitToUnits
 import Plotink.Gen.vb_scale
+import Plotink.Gen.subdivideCubicPath
+import Plotink.Gen.rtree_Index
+import Plotink.Gen.grid_Index
 /-! `gen <function> <dps> <args…>`: run a *generated* definition with the concrete rounding instance
 (`Rounding.ieee`), or with `Rounding.exact` when `<dps>` is written `x<dps>`.
 Arguments: `parseVal` syntax, plus nested lists `[[f1/2,0],[1,2]]` (no blanks) and strings `s<code points>`
@@ -72,6 +75,24 @@ def genHandle (toks : List String) : String :=
     match f, a with
     | "clip_segment", [.int fuel, seg, bounds] => showPyOut (Gen.clip_segment R p fuel.toNat seg bounds)
     | "supersample", [.int fuel, vs, tol] => showPyOut (Gen.supersample R p fuel.toNat vs tol)
+    | "rtree", [.int fuel, bbs, .tup qs] =>      -- t = Index(bboxes); (t, [t.intersection(q) for q in qs])
+      (match Gen.rtree_Index_init R p fuel.toNat bbs with
+       | .fuelOut => "FUELOUT"
+       | .val t =>
+         let rs := qs.map (fun q => match Gen.rtree_Index_intersection R p fuel.toNat t q with
+           | .fuelOut => Py.Val.str "FUELOUT" | .val v => v)
+         showVal (.tup [t, .tup rs]))
+    | "grid", [verts, bins, rev, .tup ops] =>
+      -- idx = spatial_grid.Index(verts, bins, rev); then the history `ops`: [0, vertex] = nearest, [1, k] = remove_path
+      let step := fun (st : Py.Val × List Py.Val) (op : Py.Val) =>
+        match op with
+        | .tup [.int 0, v] => (st.1, Gen.grid_Index_nearest R p st.1 v :: st.2)
+        | .tup [.int 1, k] => (Py.getItem (Gen.grid_Index_remove_path R p st.1 k) 1, Py.Val.none_ :: st.2)
+        | _ => (st.1, Py.Val.err :: st.2)
+      let fin := ops.foldl step (Gen.grid_Index_init R p verts bins rev, [])
+      showVal (.tup [.tup fin.2.reverse, fin.1])
+    | "rtree_init", [.int fuel, bbs] => showPyOut (Gen.rtree_Index_init R p fuel.toNat bbs)
+    | "subdivideCubicPath", [.int fuel, sp, flat, i] => showPyOut (Gen.subdivideCubicPath R p fuel.toNat sp flat i)
     | _, _ =>
     let r : Py.Val := match f, a with
       | "clip_code", [x, y, x0, x1, y0, y1] => Gen.clip_code R p x y x0 x1 y0 y1
@@ -82,6 +103,8 @@ def genHandle (toks : List String) : String :=
       | "unitsToUserUnits", [t, ref] => Gen.unitsToUserUnits R p t ref
       | "userUnitToUnits", [d, u] => Gen.userUnitToUnits R p d u
       | "vb_scale", [vb, par, w, h] => Gen.vb_scale R p vb par w h
+      | "tpoint", [a, b, t] => Gen.tpoint R p a b t
+      | "beziersplitatt", [c, t] => Gen.beziersplitatt R p c t
       | "move_dist_lt", [a, b, c, d] => Gen.move_dist_lt R p a b c d
       | "move_dist_t3", [a, b, c, d, e] => Gen.move_dist_t3 R p a b c d e
       | "rate_t3", [a, b, c, d] => Gen.rate_t3 R p a b c d
